@@ -11,7 +11,7 @@ HOSTS = {
     "syll":        {"file": "syll.rs",         "modpath": "syll::verif_kani",          "prelude": "#![allow(unused_imports, dead_code, unused_variables, unused_mut)]\nuse super::*;\nuse crate::verif_common::*;\nuse crate::parser::{ModKind, BinMod, AlphaMod};\nuse crate::seg::NodeKind;\nuse crate::lexer::FType;\n"},
     "subrule":     {"file": "subrule.rs",      "modpath": "subrule::verif_kani",       "prelude": "#![allow(unused_imports, dead_code, unused_variables, unused_mut)]\nuse super::*;\nuse crate::verif_common::*;\nuse crate::place::Place;\nuse crate::parser::Env;\n"},
     "parser":      {"file": "parser.rs",       "modpath": "parser::verif_kani",        "prelude": "#![allow(unused_imports, dead_code, unused_variables, unused_mut)]\nuse super::*;\nuse crate::verif_common::*;\nuse crate::seg::NodeKind;\n"},
-    "aliasparser": {"file": "alias/parser.rs", "modpath": "alias::parser::verif_kani", "prelude": "#![allow(unused_imports, dead_code, unused_variables, unused_mut)]\nuse super::*;\nuse crate::verif_common::*;\nuse crate::seg::NodeKind;\nuse crate::lexer::FType;\nuse crate::parser::{ModKind, BinMod};\n"},
+    "aliasparser": {"file": "alias/parser.rs", "modpath": "alias::parser::verif_kani", "prelude": "#![allow(unused_imports, dead_code, unused_variables, unused_mut)]\nuse super::*;\nuse crate::verif_common::*;\nuse crate::seg::NodeKind;\nuse crate::lexer::FType;\nuse crate::parser::{ModKind, BinMod, SupraSegs};\nuse crate::alias::{AliasKind, AliasPosition, AliasToken, AliasTokenKind};\n"},
     "word":        {"file": "word.rs",         "modpath": "word::verif_kani",          "prelude": "#![allow(unused_imports, dead_code, unused_variables, unused_mut)]\nuse super::*;\nuse crate::verif_common::*;\n"},
 }
 
@@ -43,6 +43,24 @@ def H(name, family, host, code, **kw):
     d = {"name": name, "family": family, "host": host, "code": code}
     d.update(kw)
     return d
+
+
+def T(code, **kw):
+    """tiny template: @name@ placeholders (keeps Rust braces readable)"""
+    def sub(m):
+        k = m.group(1)
+        if k not in kw:
+            raise KeyError("template placeholder @%s@ not bound" % k)
+        return str(kw[k])
+    return re.sub(r"@([a-zA-Z_][a-zA-Z0-9_]*)@", sub, code)
+
+
+SUBRULE_SHARED = """
+fn mk_sub(rt: RuleType) -> SubRule {
+    SubRule { input: Vec::new(), output: Vec::new(), context: None, except: None, rule_type: rt, variables: RefCell::new(HashMap::new()), alphas: RefCell::new(HashMap::new()) }
+}
+fn word1(sy: Syllable) -> Word { let mut w = empty_word(); w.syllables.push(sy); w }
+"""
 
 
 # =================================================================================================
@@ -231,7 +249,28 @@ fn c18_twin_reach() {
 
 # =================================================================================================
 
-PROPS = {"C18": c18}
+import props_c04  # noqa: E402
+import props_c12  # noqa: E402
+import props_c05  # noqa: E402
+import props_c08  # noqa: E402
+import props_c14  # noqa: E402
+
+PROPS = {"C18": c18, "C04": props_c04.c04, "C12": props_c12.c12, "C05": props_c05.c05, "C08": props_c08.c08, "C14": props_c14.c14}
+
+
+def dev(tier, seed, dst, facts):
+    """development scratchpad: harnesses from .cache/dev.rs, blocks separated by `//! HARNESS <name> <host> [unwindset]`"""
+    src = open(os.path.join(os.path.dirname(os.path.dirname(os.path.abspath(__file__))), ".cache", "dev.rs")).read()
+    hs = []
+    for m in re.finditer(r"^//! HARNESS (\S+) (\S+)( unwindset)?\n(.*?)(?=^//! HARNESS|\Z)", src, re.S | re.M):
+        h = H(m.group(1), "dev", m.group(2), m.group(4), shared=[SUBRULE_SHARED] if m.group(2) == "subrule" else [], stubs=["x"])
+        if m.group(3):
+            h["unwindset"] = {"pattern": r"hashbrown|core..hash..sip|sip..Hasher|4hash3sip|BuildHasher|hash_one", "bound": 3}
+        hs.append(h)
+    return {"harnesses": hs, "cap_s": 900}
+
+
+PROPS["DEV"] = dev
 
 
 def generate(pid, tier, seed, dst):
